@@ -937,6 +937,12 @@ func (c *EvalCtx) callExpr(e *Expr) TV {
 			return TV{V: sv.Ref, T: types.NewPointer(sv.T)}
 		}
 		return v
+	case "disjoint":
+		// disjoint(p, q): the objects behind two pointers to structs do not overlap
+		a, b := c.eval(args[0]), c.eval(args[1])
+		ea, eb := pointeeExtent(firstType(a.T, types.Typ[types.Int])), pointeeExtent(firstType(b.T, types.Typ[types.Int]))
+		ta, tbt := c.mat(a, a.T), c.mat(b, b.T)
+		return TV{V: tb.Or(tb.Le(tb.Add(ta, tb.IntC(ea)), tbt), tb.Le(tb.Add(tbt, tb.IntC(eb)), ta)), T: boolT}
 	case "addr":
 		// addr(e.f): the reference of the struct- or array-typed field f inside its object
 		if args[0].Kind != "field" {
